@@ -273,6 +273,14 @@ pub struct DN {
 }
 show_struct2!(DN, gens, w, id);
 
+/// (w_derive) exactly one field, and it carries a token: `token_count > 0` means `token_count == 1` here
+#[derive(JominiDeserialize)]
+pub struct D1T {
+    #[jomini(token = 0x2e10)]
+    only: u32,
+}
+show_struct2!(D1T, only);
+
 fn fin<T: Show>(r: Result<T, jomini::Error>) -> String {
     match r {
         Ok(v) => {
@@ -318,16 +326,19 @@ instances! {
     "DGT_i32" => DGT<i32>,
     "DL" => DL,
     "DN" => DN,
+    "D1T" => D1T,
 }
 
 pub fn dispatch(kind: &str, a: &[&str]) -> Option<String> {
     match (kind, a) {
-        ("dw.text", [path, enc, st, h]) | ("dw.text.m", [path, enc, st, h, _, _]) | ("dw.text.s", [path, enc, st, h, _, _]) => {
+        ("dw.text", [path, enc, st, h]) | ("dw.text.m", [path, enc, st, h, _, _]) | ("dw.text.s", [path, enc, st, h, _, _])
+        | ("dc.text.m", [path, enc, st, h, _, _]) /* w_derive: DeriveCode.visit_raw from the raw attribute syntax */ => {
             let data = unhex(h);
             // the structs of fam_derive.rs are served under the dw.* kinds as well (model instantiated from the source)
             text_instance(st, path, parse_enc(enc), &data).or_else(|| crate::fams::fam_derive::dispatch("dv.text", &[*path, *enc, *st, *h]))
         }
-        ("dw.bin", [path, strat, res, fl, st, h]) | ("dw.bin.m", [path, strat, res, fl, st, h, _, _]) | ("dw.bin.s", [path, strat, res, fl, st, h, _, _]) => {
+        ("dw.bin", [path, strat, res, fl, st, h]) | ("dw.bin.m", [path, strat, res, fl, st, h, _, _]) | ("dw.bin.s", [path, strat, res, fl, st, h, _, _])
+        | ("dc.bin.m", [path, strat, res, fl, st, h, _, _]) /* w_derive */ => {
             let data = unhex(h);
             let rs = match parse_resolver(res) {
                 Ok(r) => r,
